@@ -4,8 +4,6 @@ open BinNums
 module SS = Stdlib.String
 module LL = Stdlib.List
 
-type st = (coq_N, coq_N Store.store, coq_N Script.pstate) McSys.mcstate
-type sys = (coq_N, coq_N Store.store, coq_N Script.pstate) McSys.mcsys
 
 (* ---------- canonical text of values (must match harness/src/canon.rs character by character) ---------- *)
 let sn = string_of_n
@@ -90,10 +88,6 @@ let c_pentry (name : coq_N) (p : (coq_N, coq_N Script.pstate) Log.pentry) : stri
     (sn p.Log.pe_sent) (sn p.Log.pe_recv)
     (cat ";" (LL.map (fun (t, e) -> sn t ^ " " ^ c_pevent e) p.Log.pe_evlog))
 
-let c_store (s : coq_N Store.store) : string =
-  let b = Buffer.create 256 in
-  Store_drv.dump_store b s;
-  cat "/" (SS.split_on_char '\n' (SS.trim (Buffer.contents b)))
 
 let c_net (n : coq_N McSys.mcnet) : string =
   Printf.sprintf "c%s d%s r%s in[%s] out[%s] links[%s] loc[%s] max%s"
@@ -101,16 +95,6 @@ let c_net (n : coq_N McSys.mcnet) : string =
     (cat "," (LL.map (fun (a, b) -> sn a ^ ">" ^ sn b) n.McSys.n_links))
     (cat "," (LL.map (fun (a, b) -> sn a ^ "@" ^ sn b) n.McSys.n_loc))
     (sn n.McSys.n_maxdelay)
-
-(* the parts of a state; the trace separately so that digests of "state without trace" are available too *)
-let c_nodes (s : st) : string =
-  cat "" (LL.map (fun (name, ns) ->
-      Printf.sprintf "|N%s c%s %s" (sn name) (b01 ns.McSys.ns_crashed)
-        (cat "" (LL.map (fun (pn, pe) -> c_pentry pn pe) ns.McSys.ns_procs)))
-      s.McSys.st_nodes)
-let c_state_core (s : st) : string =
-  Printf.sprintf "D%s%s|S%s|W%s" (sn s.McSys.st_depth) (c_nodes s) (c_store s.McSys.st_events) (c_net s.McSys.st_net)
-let c_state (s : st) : string = c_state_core s ^ "|T" ^ c_trace s.McSys.st_trace
 
 (* FNV-1a 64 over the bytes of a string, printed as unsigned decimal *)
 let fnv (s : string) : string =
@@ -147,158 +131,294 @@ let netop_of (t : toks) : coq_N McSys.netop =
 
 type predspec = { mutable inv : string list; mutable goal : string list; mutable prune : string list;
                   mutable collect : string list }
+let rest_toks (t : toks) : string list = let r = t.rest in t.rest <- []; r
 
-let find_proc (s : st) (p : coq_N) : (coq_N, coq_N Script.pstate) Log.pentry option =
-  LL.fold_left (fun acc (_, ns) ->
-      match acc with
-      | Some _ -> acc
-      | None -> Util.sget BinNat.N.compare p ns.McSys.ns_procs) None s.McSys.st_nodes
+exception Fuel_exhausted
+let check_count = ref 0
+let check_limit = ref max_int
 
-let len_n l = LL.length l
-let noevents (s : st) : bool = match Store.is_empty s.McSys.st_events with Util.Ok b -> b | Util.Panic _ -> false
+let live_out (l : (coq_N * coq_N Store.sevent) list) : string =
+  cat " ; " (LL.map (fun (i, e) -> sn i ^ " " ^ Store_drv.event_out e) l)
+let tmap_out (l : ((coq_N * coq_N) * coq_N) list) : string =
+  cat " ; " (LL.map (fun ((p, n), i) -> Printf.sprintf "%s %s %s" (sn p) (sn n) (sn i)) l)
 
-let mk_preds (ps : predspec) : (coq_N, coq_N Store.store, coq_N Script.pstate) McRun.preds =
-  let ios = int_of_string in
-  let outbox_len s p = match find_proc s (n_of_string p) with Some pe -> len_n pe.Log.pe_outbox | None -> -1 in
-  let hist_len s p = match find_proc s (n_of_string p) with Some pe -> len_n pe.Log.pe_state.Script.ps_hist | None -> -1 in
-  let inv s = match ps.inv with
+(* a store instance: the model of the code's PendingEvents, or the one-list reference semantics *)
+module type INST = sig
+  type se
+  val name : string
+  val empty : se
+  val full_text : se -> string            (* everything, including internal indexes (concrete only) *)
+  val red_text : se -> string             (* what both instances have: live, offered (both modes), counter, name map *)
+  val is_empty : se -> bool
+  val live : se -> (coq_N * coq_N Store.sevent) list
+  val run : ((coq_N * coq_N) * coq_N) list -> (coq_N * coq_N Script.prog) list -> McRun.config ->
+    (coq_N, se, coq_N Script.pstate) McRun.preds -> (coq_N, se, coq_N Script.pstate) McSys.mcsys -> coq_N McSys.cbop list ->
+    (((coq_N, se, coq_N Script.pstate) McSys.mcsys * (coq_N, se, coq_N Script.pstate) McRun.mcresult)
+     * (coq_N, se, coq_N Script.pstate) McSys.mcstate Search.sstate) Util.result
+  val run_from_states : (((coq_N * coq_N) * coq_N) list -> (coq_N * coq_N Script.prog) list -> McRun.config ->
+    (coq_N, se, coq_N Script.pstate) McRun.preds -> (coq_N, se, coq_N Script.pstate) McSys.mcsys -> coq_N McSys.cbop list ->
+    (coq_N, se, coq_N Script.pstate) McSys.mcstate list ->
+    (((coq_N, se, coq_N Script.pstate) McSys.mcsys * (coq_N, se, coq_N Script.pstate) McRun.mcresult)
+     * (coq_N, se, coq_N Script.pstate) McSys.mcstate Search.sstate) Util.result) option
+  val get_state : (coq_N, se, coq_N Script.pstate) McSys.mcsys -> (coq_N, se, coq_N Script.pstate) McSys.mcstate
+end
+
+module Concrete : INST with type se = coq_N Store.store = struct
+  type se = coq_N Store.store
+  let name = "model"
+  let empty = Store.empty
+  let full_text (s : se) =
+    let b = Buffer.create 256 in
+    Store_drv.dump_store b s;
+    cat "/" (SS.split_on_char '\n' (SS.trim (Buffer.contents b)))
+  let red_text (s : se) =
+    let o = Store.observe s in
+    Printf.sprintf "LIVE %s/OFF %s/OFFMF %s/NEXT %s/TMAP %s" (live_out o.Store.ob_live)
+      (Store_drv.res_ids_out o.Store.ob_offered) (Store_drv.res_ids_out o.Store.ob_offered_mf) (sn o.Store.ob_next)
+      (tmap_out s.Store.tmap)
+  let is_empty s = match Store.is_empty s with Util.Ok b -> b | Util.Panic _ -> false
+  let live s = s.Store.evs
+  let run = McInst.i_run
+  let run_from_states = Some (fun tab progs -> McInst.i_run_from_states tab progs (fun l -> l))
+  let get_state = McInst.i_get_state
+end
+
+module Reference : INST with type se = coq_N StoreSpec.astore = struct
+  type se = coq_N StoreSpec.astore
+  let name = "reference"
+  let empty = StoreSpec.aempty
+  let red_text (a : se) =
+    let o = StoreSpec.aobserve BinNat.N.leb a in
+    Printf.sprintf "LIVE %s/OFF %s/OFFMF %s/NEXT %s/TMAP %s" (live_out o.Store.ob_live)
+      (Store_drv.res_ids_out o.Store.ob_offered) (Store_drv.res_ids_out o.Store.ob_offered_mf) (sn o.Store.ob_next)
+      (tmap_out a.StoreSpec.amap)
+  let full_text = red_text
+  let is_empty a = a.StoreSpec.pend = []
+  let live a = StoreSpec.alive a
+  let run = McInst.r_run
+  let run_from_states = None
+  let get_state = McInst.r_get_state
+end
+
+module Make (I : INST) = struct
+  type st = (coq_N, I.se, coq_N Script.pstate) McSys.mcstate
+  type sys = (coq_N, I.se, coq_N Script.pstate) McSys.mcsys
+
+  let c_nodes (s : st) : string =
+    cat "" (LL.map (fun (name, ns) ->
+        Printf.sprintf "|N%s c%s %s" (sn name) (b01 ns.McSys.ns_crashed)
+          (cat "" (LL.map (fun (pn, pe) -> c_pentry pn pe) ns.McSys.ns_procs)))
+        s.McSys.st_nodes)
+  let c_state_core (s : st) : string =
+    Printf.sprintf "D%s%s|S%s|W%s" (sn s.McSys.st_depth) (c_nodes s) (I.full_text s.McSys.st_events) (c_net s.McSys.st_net)
+  let c_state_red (s : st) : string =
+    Printf.sprintf "D%s%s|S%s|W%s" (sn s.McSys.st_depth) (c_nodes s) (I.red_text s.McSys.st_events) (c_net s.McSys.st_net)
+  let c_state (s : st) : string = c_state_core s ^ "|T" ^ c_trace s.McSys.st_trace
+  (* the projection the checker's state equality looks at (process state, outbox, crash flag, pending events) *)
+  let c_state_eqp (s : st) : string =
+    cat "" (LL.map (fun (name, ns) ->
+        Printf.sprintf "|N%s c%s %s" (sn name) (b01 ns.McSys.ns_crashed)
+          (cat "" (LL.map (fun (pn, pe) ->
+               Printf.sprintf "{P%s i%s h[%s] o[%s]}" (sn pn) (sn pe.Log.pe_state.Script.ps_idx)
+                 (cat "" (LL.map c_hentry pe.Log.pe_state.Script.ps_hist)) (cat ";" (LL.map c_msg pe.Log.pe_outbox)))
+               ns.McSys.ns_procs)))
+        s.McSys.st_nodes) ^ "|S" ^ I.red_text s.McSys.st_events
+
+  let find_proc (s : st) (p : coq_N) : (coq_N, coq_N Script.pstate) Log.pentry option =
+    LL.fold_left (fun acc (_, ns) ->
+        match acc with
+        | Some _ -> acc
+        | None -> Util.sget BinNat.N.compare p ns.McSys.ns_procs) None s.McSys.st_nodes
+  let noevents (s : st) : bool = I.is_empty s.McSys.st_events
+
+  (* the scenario's predicates as pure functions of the state *)
+  let ios = int_of_string
+  let outbox_len s p = match find_proc s (n_of_string p) with Some pe -> LL.length pe.Log.pe_outbox | None -> -1
+  let hist_len s p = match find_proc s (n_of_string p) with Some pe -> LL.length pe.Log.pe_state.Script.ps_hist | None -> -1
+  let e_inv (ps : predspec) (s : st) = match ps.inv with
     | ["NONE"] -> None
-    | ["OUTBOXMAX"; p; k] -> if outbox_len s p > ios k then Some (n_of_int 1) else None
-    | ["HISTMAX"; p; k] -> if hist_len s p > ios k then Some (n_of_int 2) else None
-    | ["DEPTHMAX"; k] -> if int_of_n s.McSys.st_depth > ios k then Some (n_of_int 3) else None
-    | _ -> failwith "bad INV" in
-  let goal s = match ps.goal with
+    | ["OUTBOXMAX"; p; k] -> if outbox_len s p > ios k then Some 1 else None
+    | ["HISTMAX"; p; k] -> if hist_len s p > ios k then Some 2 else None
+    | ["DEPTHMAX"; k] -> if int_of_n s.McSys.st_depth > ios k then Some 3 else None
+    | _ -> failwith "bad INV"
+  let e_goal (ps : predspec) (s : st) = match ps.goal with
     | ["NONE"] -> None
-    | ["NOEVENTS"] -> if noevents s then Some (n_of_int 10) else None
-    | ["OUTBOXEQ"; p; k] -> if outbox_len s p = ios k then Some (n_of_int 11) else None
-    | ["DEPTHGE"; k] -> if int_of_n s.McSys.st_depth >= ios k then Some (n_of_int 12) else None
-    | _ -> failwith "bad GOAL" in
-  let prune s = match ps.prune with
+    | ["NOEVENTS"] -> if noevents s then Some 10 else None
+    | ["OUTBOXEQ"; p; k] -> if outbox_len s p = ios k then Some 11 else None
+    | ["DEPTHGE"; k] -> if int_of_n s.McSys.st_depth >= ios k then Some 12 else None
+    | _ -> failwith "bad GOAL"
+  let e_prune (ps : predspec) (s : st) = match ps.prune with
     | ["NONE"] -> None
-    | ["DEPTHGT"; k] -> if int_of_n s.McSys.st_depth > ios k then Some (n_of_int 20) else None
+    | ["DEPTHGT"; k] -> if int_of_n s.McSys.st_depth > ios k then Some 20 else None
     | ["SENTGT"; k] ->
       if LL.exists (fun (_, ns) -> LL.exists (fun (_, pe) -> int_of_n pe.Log.pe_sent > ios k) ns.McSys.ns_procs)
-          s.McSys.st_nodes then Some (n_of_int 21) else None
-    | _ -> failwith "bad PRUNE" in
-  let collect s = match ps.collect with
+          s.McSys.st_nodes then Some 21 else None
+    | _ -> failwith "bad PRUNE"
+  let e_collect (ps : predspec) (s : st) = match ps.collect with
     | ["NONE"] -> false
     | ["OUTBOXEQ"; p; k] -> outbox_len s p = ios k
     | ["NOEVENTS"] -> noevents s
     | ["DEPTHEQ"; k] -> int_of_n s.McSys.st_depth = ios k
-    | _ -> failwith "bad COLLECT" in
-  { McRun.pr_collect = collect; McRun.pr_inv = inv; McRun.pr_goal = goal; McRun.pr_prune = prune }
+    | _ -> failwith "bad COLLECT"
+  let opt_n = function Some k -> Some (n_of_int k) | None -> None
 
-let rest_toks (t : toks) : string list = let r = t.rest in t.rest <- []; r
+  let mk_preds (ps : predspec) : (coq_N, I.se, coq_N Script.pstate) McRun.preds =
+    let inv s =
+      (* the harness stops the real run after check_limit predicate evaluations; so does the model *)
+      if !check_count >= !check_limit then raise Fuel_exhausted;
+      incr check_count;
+      opt_n (e_inv ps s) in
+    { McRun.pr_collect = e_collect ps; McRun.pr_inv = inv; McRun.pr_goal = (fun s -> opt_n (e_goal ps s));
+      McRun.pr_prune = (fun s -> opt_n (e_prune ps s)) }
 
-let run (sc : scenario) : string =
-  let b = Buffer.create 65536 in
-  let add = Buffer.add_string b in
-  let verbose = ref false in
-  let nodes = ref [] in           (* (name, skew) in declaration order *)
-  let procs = ref [] in           (* (proc, node, prog) in declaration order *)
-  let rows : (string, coq_N Log.action list list) Hashtbl.t = Hashtbl.create 8 in
-  let tab = ref [] in
-  let net = ref (N0, N0, N0, N0, N0) in
-  let cb = ref [] in
-  let ps = { inv = ["NONE"]; goal = ["NONE"]; prune = ["NONE"]; collect = ["NONE"] } in
-  let sys : sys option ref = ref None in
-  let last_collected : st list ref = ref [] in
-  let progs () =
-    LL.fold_left (fun acc (p, _, (cap, rt, nd)) ->
-        let rs = LL.rev (try Hashtbl.find rows (sn p) with Not_found -> []) in
-        Util.sins BinNat.N.compare p
-          { Script.pg_cap = cap; Script.pg_rows = (if rs = [] then [[]] else rs); Script.pg_rectime = rt;
-            Script.pg_ndraws = nat_of_int nd } acc) [] !procs in
-  let build_sys () : sys =
-    let (dr, du, co, _mn, mx) = !net in
-    let loc = LL.fold_left (fun acc (p, n, _) -> Util.sins BinNat.N.compare p n acc) [] !procs in
-    let mk_node (name, skew) =
-      let ps = LL.fold_left (fun acc (p, n, _) ->
-          if n = name then
-            Util.sins BinNat.N.compare p
-              { Log.pe_state = Script.pstate0; Log.pe_evlog = []; Log.pe_outbox = []; Log.pe_ptimers = [];
-                Log.pe_sent = N0; Log.pe_recv = N0 } acc
-          else acc) [] !procs in
-      { McSys.nd_procs = ps; McSys.nd_skew = skew; McSys.nd_crashed = false } in
-    let ns = LL.fold_left (fun acc (name, skew) -> Util.sins BinNat.N.compare name (mk_node (name, skew)) acc) [] !nodes in
-    (* the trace a fresh System has logged: NodeStarted for each node (component ids 1,2,.. after "net"), then
-       ProcessStarted for each process, all at time 0.0 *)
-    let tr =
-      LL.mapi (fun i (name, _) -> Log.LNodeStarted (N0, name, n_of_int (i + 1))) !nodes
-      @ LL.map (fun (p, n, _) -> Log.LProcessStarted (N0, n, p)) !procs in
-    { McSys.s_nodes = ns;
-      McSys.s_net = { McSys.n_corrupt = co; McSys.n_dupl = du; McSys.n_drop = dr; McSys.n_drop_in = [];
-                      McSys.n_drop_out = []; McSys.n_links = []; McSys.n_loc = loc; McSys.n_maxdelay = mx };
-      McSys.s_events = Store.empty; McSys.s_depth = N0; McSys.s_mf = false; McSys.s_trace = tr } in
-  let get_sys () = match !sys with Some s -> s | None -> let s = build_sys () in sys := Some s; s in
-  let show_state (tag : string) (s : st) =
-    if !verbose then add (Printf.sprintf "%s %s\n" tag (c_state s))
-    else add (Printf.sprintf "%s %s %s %s\n" tag (sn s.McSys.st_depth) (fnv (c_state_core s)) (fnv (c_trace s.McSys.st_trace))) in
-  let report (res : ((sys * (coq_N, coq_N Store.store, coq_N Script.pstate) McRun.mcresult) * st Search.sstate) Util.result) =
-    match res with
-    | Util.Panic _ -> add "RESULT PANIC\n"
-    | Util.Ok ((s', r), ss) ->
-      LL.iteri (fun j x -> show_state (Printf.sprintf "CHECK %d" j) x) (LL.rev ss.Search.ss_checked);
-      (match r with
-       | McRun.ROk (stat, coll) ->
-         add "RESULT OK\n";
-         LL.iter (fun (k, c) -> add (Printf.sprintf "STATUS %s %s\n" (sn k) (sn c))) stat;
-         let ds = LL.sort compare (LL.map (fun x -> fnv (c_state x)) coll) in
-         add (Printf.sprintf "COLLECTED %d %s\n" (LL.length coll) (cat " " ds));
-         last_collected := coll
-       | McRun.RErr (m, tr) -> add (Printf.sprintf "RESULT ERR %s %d %s\n" (sn m) (LL.length tr) (fnv (c_trace tr)))
-       | McRun.RFuel -> add "RESULT FUEL\n"
-       | McRun.RPanic _ -> add "RESULT PANIC\n");
-      sys := Some s';
-      show_state "AFTER" (McInst.i_get_state s');
-      add (Printf.sprintf "AFTERMODE %s\n" (b01 s'.McSys.s_mf)) in
-  LL.iter (fun line ->
-      let t = toks_of_line line in
-      match next_tok t with
-      | "VERBOSE" -> verbose := true
-      | "NODE" -> let n = next_n t in let sk = next_n t in nodes := !nodes @ [(n, sk)]
-      | "PROC" ->
-        let p = next_n t in let n = next_n t in let cap = next_n t in let rt = next_bool t in let nd = next_int t in
-        procs := !procs @ [(p, n, (cap, rt, nd))]
-      | "ROW" ->
-        let p = next_tok t in
-        let k = next_int t in
-        let acts = LL.init k (fun _ -> action_of t) in
-        let old = try Hashtbl.find rows p with Not_found -> [] in
-        Hashtbl.replace rows p (acts :: old)
-      | "NET" ->
-        let dr = next_n t in let du = next_n t in let co = next_n t in let mn = next_n t in let mx = next_n t in
-        net := (dr, du, co, mn, mx)
-      | "CLOCK" ->
-        let d = next_n t in let sk = next_n t in let v = next_n t in
-        tab := Util.sins Store.tkey_cmp (d, sk) v !tab
-      | "CB" ->
-        (match next_tok t with
-         | "LOCAL" -> let n = next_n t in let p = next_n t in let m = msg_of t in cb := !cb @ [McSys.CbLocal (n, p, m)]
-         | "CRASH" -> cb := !cb @ [McSys.CbCrash (next_n t)]
-         | "MODE" -> cb := !cb @ [McSys.CbMode (next_bool t)]
-         | "NET" -> cb := !cb @ [McSys.CbNet (netop_of t)]
-         | s -> failwith ("bad CB " ^ s))
-      | "PRED" ->
-        (match next_tok t with
-         | "INV" -> ps.inv <- rest_toks t
-         | "GOAL" -> ps.goal <- rest_toks t
-         | "PRUNE" -> ps.prune <- rest_toks t
-         | "COLLECT" -> ps.collect <- rest_toks t
-         | s -> failwith ("bad PRED " ^ s))
-      | ("RUN" | "RUNFROM") as kw ->
-        let strat = (match next_tok t with "BFS" -> Search.Bfs | "DFS" -> Search.Dfs | s -> failwith s) in
-        let vm = (match next_tok t with
-            | "FULL" -> Search.VFull | "PARTIAL" -> Search.VPartial | "DISABLED" -> Search.VDisabled | s -> failwith s) in
-        let dbg = next_bool t in
-        let fuel = next_int t in
-        let cf = { McRun.cf_strategy = strat; McRun.cf_vm = vm; McRun.cf_debug = dbg; McRun.cf_fuel = nat_of_int fuel } in
-        add (Printf.sprintf "%s\n" kw);
-        let pr = mk_preds ps in
-        let s = get_sys () in
-        (if kw = "RUN" then report (McInst.i_run !tab (progs ()) cf pr s !cb)
-         else report (McInst.i_run_from_states !tab (progs ()) (fun l -> l) cf pr s !cb !last_collected));
-        cb := []
-      | s -> failwith ("bad MC line " ^ s))
-    sc.lines;
-  Buffer.contents b
+  (* C14 monitor data: does a pending event touch a process of a crashed node; digest of the crashed nodes' processes *)
+  let crash_info (s : st) : string * string =
+    let crashed = LL.filter (fun (_, ns) -> ns.McSys.ns_crashed) s.McSys.st_nodes in
+    let cprocs = LL.concat (LL.map (fun (_, ns) -> LL.map fst ns.McSys.ns_procs) crashed) in
+    let touches e = match e with
+      | Store.EMsg (_, a, b, _) -> LL.mem a cprocs || LL.mem b cprocs
+      | Store.ETimer (p, _, _) -> LL.mem p cprocs in
+    let bad = LL.exists (fun (_, e) -> touches e) (I.live s.McSys.st_events) in
+    let k = fnv (cat "" (LL.map (fun (name, ns) ->
+        sn name ^ cat "" (LL.map (fun (pn, pe) -> c_pentry pn pe) ns.McSys.ns_procs)) crashed)) in
+    (b01 bad, k)
+
+  let verdict_text ps s =
+    match e_inv ps s with
+    | Some k -> "E" ^ string_of_int k
+    | None ->
+      match e_goal ps s with
+      | Some k -> "G" ^ string_of_int k
+      | None -> match e_prune ps s with Some k -> "P" ^ string_of_int k | None -> if noevents s then "E0" else "N"
+
+  let run (sc : scenario) : string =
+    let b = Buffer.create 65536 in
+    let add = Buffer.add_string b in
+    let verbose = ref false in
+    let nodes = ref [] in           (* (name, skew) in declaration order *)
+    let procs = ref [] in           (* (proc, node, prog) in declaration order *)
+    let rows : (string, coq_N Log.action list list) Hashtbl.t = Hashtbl.create 8 in
+    let tab = ref [] in
+    let net = ref (N0, N0, N0, N0, N0) in
+    let cb = ref [] in
+    let ps = { inv = ["NONE"]; goal = ["NONE"]; prune = ["NONE"]; collect = ["NONE"] } in
+    let sys : sys option ref = ref None in
+    let last_collected : st list ref = ref [] in
+    let progs () =
+      LL.fold_left (fun acc (p, _, (cap, rt, nd)) ->
+          let rs = LL.rev (try Hashtbl.find rows (sn p) with Not_found -> []) in
+          Util.sins BinNat.N.compare p
+            { Script.pg_cap = cap; Script.pg_rows = (if rs = [] then [[]] else rs); Script.pg_rectime = rt;
+              Script.pg_ndraws = nat_of_int nd } acc) [] !procs in
+    let build_sys () : sys =
+      let (dr, du, co, _mn, mx) = !net in
+      let loc = LL.fold_left (fun acc (p, n, _) -> Util.sins BinNat.N.compare p n acc) [] !procs in
+      let mk_node (name, skew) =
+        let ps = LL.fold_left (fun acc (p, n, _) ->
+            if n = name then
+              Util.sins BinNat.N.compare p
+                { Log.pe_state = Script.pstate0; Log.pe_evlog = []; Log.pe_outbox = []; Log.pe_ptimers = [];
+                  Log.pe_sent = N0; Log.pe_recv = N0 } acc
+            else acc) [] !procs in
+        { McSys.nd_procs = ps; McSys.nd_skew = skew; McSys.nd_crashed = false } in
+      let ns = LL.fold_left (fun acc (name, skew) -> Util.sins BinNat.N.compare name (mk_node (name, skew)) acc) [] !nodes in
+      (* the trace a fresh System has logged: NodeStarted for each node (component ids 1,2,.. after "net"), then
+         ProcessStarted for each process, all at time 0.0 *)
+      let tr =
+        LL.mapi (fun i (name, _) -> Log.LNodeStarted (N0, name, n_of_int (i + 1))) !nodes
+        @ LL.map (fun (p, n, _) -> Log.LProcessStarted (N0, n, p)) !procs in
+      { McSys.s_nodes = ns;
+        McSys.s_net = { McSys.n_corrupt = co; McSys.n_dupl = du; McSys.n_drop = dr; McSys.n_drop_in = [];
+                        McSys.n_drop_out = []; McSys.n_links = []; McSys.n_loc = loc; McSys.n_maxdelay = mx };
+        McSys.s_events = I.empty; McSys.s_depth = N0; McSys.s_mf = false; McSys.s_trace = tr } in
+    let get_sys () = match !sys with Some s -> s | None -> let s = build_sys () in sys := Some s; s in
+    let state_line (s : st) : string =
+      if !verbose then c_state s
+      else
+        let (x, k) = crash_info s in
+        Printf.sprintf "d=%s core=%s red=%s eqp=%s tr=%s c=%s v=%s x=%s k=%s" (sn s.McSys.st_depth) (fnv (c_state_core s))
+          (fnv (c_state_red s)) (fnv (c_state_eqp s)) (fnv (c_trace s.McSys.st_trace)) (b01 (e_collect ps s)) (verdict_text ps s) x k in
+    let report res =
+      match res with
+      | Util.Panic _ -> add "RESULT PANIC\n"
+      | Util.Ok ((s', r), ss) ->
+        LL.iteri (fun j x -> add (Printf.sprintf "CHECK %d %s\n" j (state_line x))) (LL.rev ss.Search.ss_checked);
+        (match r with
+         | McRun.ROk (stat, coll) ->
+           add "RESULT OK\n";
+           LL.iter (fun (k, c) -> add (Printf.sprintf "STATUS %s %s\n" (sn k) (sn c))) stat;
+           let ds = LL.sort compare (LL.map (fun x -> fnv (c_state_red x) ^ ":" ^ fnv (c_trace x.McSys.st_trace)) coll) in
+           add (Printf.sprintf "COLLECTED %d %s\n" (LL.length coll) (cat " " ds));
+           last_collected := coll
+         | McRun.RErr (m, tr) -> add (Printf.sprintf "RESULT ERR %s %d %s\n" (sn m) (LL.length tr) (fnv (c_trace tr)))
+         | McRun.RFuel -> add "RESULT FUEL\n"
+         | McRun.RPanic _ -> add "RESULT PANIC\n");
+        sys := Some s';
+        add (Printf.sprintf "AFTER %s\n" (state_line (I.get_state s')));
+        add (Printf.sprintf "AFTERMODE %s\n" (b01 s'.McSys.s_mf)) in
+    (try LL.iter (fun line ->
+        let t = toks_of_line line in
+        match next_tok t with
+        | "VERBOSE" -> verbose := true
+        | "NODE" -> let n = next_n t in let sk = next_n t in nodes := !nodes @ [(n, sk)]
+        | "PROC" ->
+          let p = next_n t in let n = next_n t in let cap = next_n t in let rt = next_bool t in let nd = next_int t in
+          procs := !procs @ [(p, n, (cap, rt, nd))]
+        | "ROW" ->
+          let p = next_tok t in
+          let k = next_int t in
+          let acts = LL.init k (fun _ -> action_of t) in
+          let old = try Hashtbl.find rows p with Not_found -> [] in
+          Hashtbl.replace rows p (acts :: old)
+        | "NET" ->
+          let dr = next_n t in let du = next_n t in let co = next_n t in let mn = next_n t in let mx = next_n t in
+          net := (dr, du, co, mn, mx)
+        | "CLOCK" ->
+          let d = next_n t in let sk = next_n t in let v = next_n t in
+          tab := Util.sins Store.tkey_cmp (d, sk) v !tab
+        | "CB" ->
+          (match next_tok t with
+           | "LOCAL" -> let n = next_n t in let p = next_n t in let m = msg_of t in cb := !cb @ [McSys.CbLocal (n, p, m)]
+           | "CRASH" -> cb := !cb @ [McSys.CbCrash (next_n t)]
+           | "MODE" -> cb := !cb @ [McSys.CbMode (next_bool t)]
+           | "NET" -> cb := !cb @ [McSys.CbNet (netop_of t)]
+           | s -> failwith ("bad CB " ^ s))
+        | "PRED" ->
+          (match next_tok t with
+           | "INV" -> ps.inv <- rest_toks t
+           | "GOAL" -> ps.goal <- rest_toks t
+           | "PRUNE" -> ps.prune <- rest_toks t
+           | "COLLECT" -> ps.collect <- rest_toks t
+           | s -> failwith ("bad PRED " ^ s))
+        | ("RUN" | "RUNFROM") as kw ->
+          let strat = (match next_tok t with "BFS" -> Search.Bfs | "DFS" -> Search.Dfs | s -> failwith s) in
+          let vm = (match next_tok t with
+              | "FULL" -> Search.VFull | "PARTIAL" -> Search.VPartial | "DISABLED" -> Search.VDisabled | s -> failwith s) in
+          let dbg = next_bool t in
+          let fuel = next_int t in
+          (* the model's own fuel bounds the BFS iterations / the DFS depth; it is set out of reach and the
+             number of predicate evaluations is bounded instead, as in the harness *)
+          let cf = { McRun.cf_strategy = strat; McRun.cf_vm = vm; McRun.cf_debug = dbg; McRun.cf_fuel = nat_of_int 1000000 } in
+          add (Printf.sprintf "%s\n" kw);
+          check_count := 0;
+          check_limit := fuel;
+          let pr = mk_preds ps in
+          let s = get_sys () in
+          add (Printf.sprintf "BEFORE %s\n" (state_line (I.get_state s)));
+          (try
+             (if kw = "RUN" then report (I.run !tab (progs ()) cf pr s !cb)
+              else (match I.run_from_states with
+                  | Some f -> report (f !tab (progs ()) cf pr s !cb !last_collected)
+                  | None -> add "UNSUPPORTED RUNFROM\n"; raise Exit));
+             cb := []
+           with Fuel_exhausted -> add "RESULT FUEL\n"; raise Exit)
+        | s -> failwith ("bad MC line " ^ s))
+        sc.lines
+     with Exit -> ());
+    Buffer.contents b
+end
+
+module MC = Make (Concrete)
+module MR = Make (Reference)
+let run = MC.run
+let run_ref = MR.run
